@@ -62,7 +62,7 @@ PROPS = {"C17": ["StopReturns", "CallersReleased", "CallerErrorClass", "ReopenCo
 
 CODE_VERSION = json.load(open(os.path.join(SPEC, "code_version.json")))
 
-BOUND = 90   # seconds: >= 100x a normal Stop
+BOUND = int(os.environ.get("VSD_BOUND_S", "90"))   # seconds: >= 100x a normal Stop (override for self-tests only)
 
 KNAME = {1: "getblock", 2: "getcfilter", 3: "getutxo", 4: "rescan", 5: "sendtx", 6: "subscribe", 7: "sync"}
 CNAME = {0: "pending", 1: "shutdown", 2: "cancelled", 3: "legit", 4: "bad", 5: "hung", 6: "none"}
@@ -165,7 +165,7 @@ class G:
         self.n_edges_raw = 0
 
     def node(self, st):
-        k = tuple(st)
+        k = array("H", st).tobytes()        # compact: 2 bytes per component
         n = self.ids.get(k)
         if n is None:
             n = len(self.states)
@@ -214,11 +214,16 @@ class G:
             self.inn[self.et[i]].append(i)
 
     # --- decoding of a state tuple
+    def st(self, n):
+        a = array("H")
+        a.frombytes(self.states[n])
+        return a
+
     def pool(self, n):
-        return self.states[n][0]
+        return self.st(n)[0]
 
     def acts(self, n):
-        st = self.states[n]
+        st = self.st(n)
         j = ACTS_OFF
         out = []
         while st[j] != 99:
@@ -227,7 +232,7 @@ class G:
         return tuple(out)
 
     def at(self, n):
-        st = self.states[n]
+        st = self.st(n)
         d = {f: PCS[st[i]] for f, i in AT_FIELDS.items()}
         j = ACTS_OFF
         while st[j] != 99:
@@ -236,10 +241,10 @@ class G:
         return d
 
     def stopped(self, n):
-        return self.states[n][-1] == 1
+        return self.st(n)[-1] == 1
 
     def dial(self, n):
-        return self.states[n][-2]
+        return self.st(n)[-2]
 
     def closure(self, S):
         S = set(S)
@@ -353,7 +358,7 @@ def scenarios(g, cfg, rng, conf=None):
         elif lab["op"] == "Begin" and g.stopped(f):
             pre = g.acts(f)
             if len(pre) <= 1:
-                late.add((g.pool(f), g.dial(f), pre, (lab["k"], lab["m"]), g.states[f][8] == done_ix))
+                late.add((g.pool(f), g.dial(f), pre, (lab["k"], lab["m"]), g.st(f)[8] == done_ix))
     out = []
     for (pool, dial, acts), ats in sorted(keys.items()):
         moments = list(cfg["moments"])
@@ -407,7 +412,7 @@ class Conformance:
             x = stack.pop()
             if x not in self.can_stopret:
                 return True
-            st = g.states[x]
+            st = g.st(x)
             j = ACTS_OFF
             while st[j] != 99:
                 j += 1
@@ -513,7 +518,7 @@ def run_liveness(consts, wd, prop="StopTerminates", workers=8, timeout=1500):
     env = dict(os.environ)
     env.pop("JAVA_TOOL_OPTIONS", None)
     t0 = time.time()
-    p = subprocess.run(["timeout", str(timeout), "java", "-XX:+UseParallelGC", "-Xss64m", "-cp", core.TLA_CP,
+    p = subprocess.run(["timeout", str(timeout), "java", "-XX:+UseParallelGC", "-Xmx4g", "-Xss64m", "-cp", core.TLA_CP,
                         "tlc2.TLC", "-workers", str(workers), "-metadir", os.path.join(wd, "meta"),
                         "-noGenerateSpecTE", "MC.tla"], cwd=wd, stdout=subprocess.PIPE, stderr=subprocess.STDOUT,
                        text=True, env=env)
@@ -605,7 +610,7 @@ def run(prop_id, tier, seed, replay=None):
             g = G()
             for i, r in enumerate(cfg["runs"]):
                 tlc = core.run_tlc([SPEC], "Shutdown", consts_of(r), workers=8,
-                                   invariants=["TypeOK", "QuitOrder", "NoViolation"],
+                                   invariants=["TypeOK", "QuitOrder", "NoViolation"], heap="3g",
                                    workdir=os.path.join(sc, "tlc%d" % i), timeout=3000)
                 if not tlc.ok:
                     raise core.MachineryError("TLC on Shutdown failed: %s\n%s" % (tlc.error, tlc.stdout_tail[-3000:]))
